@@ -245,6 +245,30 @@ def run(ctx: Ctx) -> int:
                                    ("W", 2, 0, 0, 12), ("W", 2, 1, 0, 15), ("W", 2, 1, 1, 16)], 3) + [("RO", 0), ("RO", 1), ("RO", 2)])
     rnd.append(gridlib.with_dumps([("N", 1, 1), ("N", 3, 1), ("N", 1, 3), ("N", 2, 2), ("AR", 1, 1, 0, 21), ("AC", 2, 1, None, 24),
                                    ("W", 3, 0, 0, 27), ("W", 0, 0, 0, 30)], 4) + [("RO", 3), ("RO", 2), ("RO", 1), ("RO", 0)])
+    # renames: tables are addressed by their current name on every step; names move between tables
+    rnd.append(gridlib.with_dumps([("N", 2, 2), ("N", 3, 3), ("W", 0, 0, 0, 1), ("W", 1, 2, 2, 2), ("RN", 0, "Archive"), ("RN", 1, "Table 1"),
+                                   ("W", 1, 0, 0, 4), ("W", 0, 1, 1, 5), ("RN", 0, "Table 2"), ("W", 0, 3, 0, 8), ("W", 1, 0, 3, 10)], 2)
+               + [("RO", 0), ("RO", 1)])
+    for _ in range(4 if ctx.quick else 40):
+        h = [("N", 2, 2), ("N", 2, 3), ("N", 3, 2)]
+        names = ["Table 1", "Table 2", "Table 3"]
+        v = 30
+        for _ in range(12):
+            t = rng.randrange(3)
+            if rng.random() < 0.4:
+                other = rng.randrange(3)
+                fresh_name = f"N{v}"
+                if other != t and rng.random() < 0.6:
+                    # free a name, then give it to another table
+                    old = names[other]
+                    h += [("RN", other, fresh_name), ("RN", t, old)]
+                    names[other], names[t] = fresh_name, old
+                else:
+                    h.append(("RN", t, fresh_name))
+                    names[t] = fresh_name
+            v += 1
+            h.append(("W", t, rng.randrange(3), rng.randrange(3), v))
+        rnd.append(gridlib.with_dumps(h, 3) + [("RO", 0), ("RO", 1), ("RO", 2)])
     ctx.dist("exhaustive_histories", len(ex_h))
     ctx.dist("random_histories", len(rnd))
     ctx.dist("ops_total", sum(len(h) for h in ex_h + rnd))
